@@ -43,9 +43,12 @@ def run(ctx):
         firsts = []
         ok_days = True
         covered = set()
-        for w in weeks:
+        for k, w in enumerate(weeks):
             f = cm.n_of(t.m(w, 'get_first_day'))
             firsts.append(f)
+            sm_ = t.m(w, 'get_solar_month')
+            if (py(t.m(w, 'get_index')), t.idx(t.m(w, 'get_start')), py(t.m(sm_, 'get_year')), py(t.m(sm_, 'get_month'))) != (k, start, y, m):
+                ok_days = False      # the k-th listed week must be labelled (month, k, start)
             ds = [cm.n_of(d) for d in t.m(w, 'get_days')]
             if ds != list(range(f, f + 7)):
                 ok_days = False
@@ -84,7 +87,12 @@ def run(ctx):
         y, m, i, start, n = x
         w = I.call('SolarWeek::from_ym', [y, m, i, start])
         f0 = cm.n_of(t.m(w, 'get_first_day'))
-        f1 = cm.n_of(t.m(t.m(w, 'next', n), 'get_first_day'))
+        w1 = t.m(w, 'next', n)
+        f1 = cm.n_of(t.m(w1, 'get_first_day'))
+        sm1 = t.m(w1, 'get_solar_month')
+        again = I.call('SolarWeek::from_ym', [py(t.m(sm1, 'get_year')), py(t.m(sm1, 'get_month')), py(t.m(w1, 'get_index')), t.idx(t.m(w1, 'get_start'))])
+        if cm.n_of(t.m(again, 'get_first_day')) != f1:
+            return 'the stepped week is labelled (%s-%s week %s) but that label denotes another week' % (py(t.m(sm1, 'get_year')), py(t.m(sm1, 'get_month')), py(t.m(w1, 'get_index')))
         return f1 - f0
     ms2 = [(y, m) for y in ((2021, 2024, 2026) if not thorough else tuple(range(2018, 2028))) for m in (1, 2, 3, 6, 12)] + [(1582, 10), (1582, 11)]
     doms = []
@@ -127,10 +135,13 @@ def run(ctx):
         weeks = t.m(lm, 'get_weeks', start)
         firsts = []
         ok = True
-        for w in weeks:
+        for k, w in enumerate(weeks):
             fd = t.m(w, 'get_first_day')
             f = cm.n_of(t.m(fd, 'get_solar_day'))
             firsts.append(f)
+            lm_ = t.m(w, 'get_lunar_month')
+            if (py(t.m(w, 'get_index')), t.idx(t.m(w, 'get_start')), py(t.m(lm_, 'get_year')), py(t.m(lm_, 'get_month_with_leap'))) != (k, start, r['year'], r['month']):
+                ok = False      # the k-th listed week must be labelled (month, k, start)
             ds = [cm.n_of(t.m(d, 'get_solar_day')) for d in t.m(w, 'get_days')]
             if ds != list(range(f, f + 7)):
                 ok = False
@@ -154,7 +165,12 @@ def run(ctx):
         r = recs[ri]
         w = I.call('LunarWeek::from_ym', [r['year'], r['month'], i, start])
         f0 = cm.n_of(t.m(t.m(w, 'get_first_day'), 'get_solar_day'))
-        f1 = cm.n_of(t.m(t.m(t.m(w, 'next', n), 'get_first_day'), 'get_solar_day'))
+        w1 = t.m(w, 'next', n)
+        f1 = cm.n_of(t.m(t.m(w1, 'get_first_day'), 'get_solar_day'))
+        lm1 = t.m(w1, 'get_lunar_month')
+        again = I.call('LunarWeek::from_ym', [py(t.m(lm1, 'get_year')), py(t.m(lm1, 'get_month_with_leap')), py(t.m(w1, 'get_index')), t.idx(t.m(w1, 'get_start'))])
+        if cm.n_of(t.m(t.m(again, 'get_first_day'), 'get_solar_day')) != f1:
+            return 'the stepped week is labelled (%s-%s week %s) but that label denotes another week' % (py(t.m(lm1, 'get_year')), py(t.m(lm1, 'get_month_with_leap')), py(t.m(w1, 'get_index')))
         return f1 - f0
     inner = [ri for ri, r in enumerate(recs) if r['year'] in (2023, 2024, 2025) and 3 <= ri < len(recs) - 4]
     doml = []
